@@ -772,7 +772,6 @@ func main() {
 					family("seq<=5", programs(1, 5), vsched.Config{MaxPreempt: 0, MaxDev: 0, MaxSteps: 5000}),
 					family("par2x2-pb3", programs(2, 2), vsched.Config{MaxPreempt: 3, MaxDev: 0, MaxSteps: 5000}),
 					family("par3x1-pb3", programs(3, 1), vsched.Config{MaxPreempt: 3, MaxDev: 0, MaxSteps: 5000}),
-					family("par2x3-pb2", programs(2, 3), vsched.Config{MaxPreempt: 2, MaxDev: 0, MaxSteps: 5000, MaxExecs: 20000}),
 				}
 			}
 			return []vlib.Family{
